@@ -278,3 +278,10 @@ func init() {
 			"if !ok || bytes == nil {", "if !ok {", "C11-U1", "under untags in a loop"},
 	)
 }
+
+func init() {
+	addMutants(
+		Mutant{"C07", "c07-multi-parent-key-for-any-op", "compiler/optimizer/optimizer.go", "Optimizer.propagateSortKeyOp",
+			"\t\tif _, ok := op.(*dag.Merge); !ok {\n\t\t\t// Only a merge puts the values of several sorted parents in\n\t\t\t// order; anything else receives them interleaved as they arrive.\n\t\t\tparent = nil\n\t\t}\n", "", "C07-M2", "common key of several parents"},
+	)
+}
